@@ -9,3 +9,6 @@ import StreamzVerif.Model.Edit
 import StreamzVerif.Props.C01
 import StreamzVerif.Props.C10
 import StreamzVerif.Props.C05
+import StreamzVerif.Model.RateLimit
+import StreamzVerif.Proofs.RateLimit
+import StreamzVerif.Props.C13
